@@ -5,8 +5,8 @@ CONSTANTS
   TmidMax = 12
   MaxN = 3
   UseTol = TRUE
-  Side = "right"
-  InvCheck = "merged"
+  Side = "left"
+  InvCheck = "entry"
 INVARIANT MergeLoopIsDeclared
 INVARIANT LoopOperatorAgrees
 INVARIANT SelectIsContaining
